@@ -69,6 +69,32 @@ def run(ctx, rep):
                 mcat = [r[:2] for p in parts for r in p[1].rows]
                 rep.corr_case("model.concat", [r[:2] for r in model.rows] == mcat, dict(case, note="model rows of A++B vs A,B"))
         i = j
+    # the real binary with delta's own styles and syntax highlighting on (the hook comparison above runs with the verification
+    # palette and no theme): languages must not leak from one section into the next either
+    LANG_PATHS = ["src/lib.rs", "tool.py", "notes.qqq", "Makefile", "notes", "x.c", "README.md", "data.json", "a.unknownext", "sh"]
+    bjobs = []
+    for _ in range(ctx.n(40, 800)):
+        seq = [(rng.choice(["modified", "added", "deleted", "renamed_changed", "mode_changed", "mode_only", "binary"]), rng.choice(ENDINGS))
+               for _ in range(rng.randint(2, 3))]
+        secs = [M.gen_file(rng, kind=k, ending=e, paths=LANG_PATHS)["lines"] for k, e in seq]
+        args = ["--no-gitconfig", "--true-color=always"] + rng.choice([[], ["--side-by-side"], ["--line-numbers"], ["--syntax-theme", "GitHub"],
+                                                                          ["--hunk-header-style", "file line-number syntax"]])
+        bjobs.append((args, seq, secs))
+
+    def brun(j):
+        args, seq, secs = j
+        enc = lambda ls: ("\n".join(ls) + "\n").encode("utf-8", "surrogateescape")
+        return [ctx.run_delta(args, enc([l for s in secs for l in s]))] + [ctx.run_delta(args, enc(s)) for s in secs]
+    for (args, seq, secs), outs in zip(bjobs, parallel_map(brun, bjobs)):
+        whole = [l for s in secs for l in s]
+        case = dict(kind="binary-concat", args=args, input="\n".join(whole), sections=[len(s) for s in secs], kinds=seq)
+        rep.case(key=("bin", tuple(args), tuple(whole)), nontrivial=True, sample=dict(level="binary", kinds=seq, args=args))
+        rep.count("binary-concat")
+        if any(o[0] != 0 for o in outs):
+            rep.violation("exit-status", f"exit status {[o[0] for o in outs]}", case); continue
+        if outs[0][1] != b"".join(o[1] for o in outs[1:]):
+            rep.violation("concat-binary:" + "+".join(k for k, _ in seq[:2]),
+                          "delta(A++B) differs from delta(A)++delta(B) with delta's own styles (syntax highlighting on)", case)
     # determinism: repeated runs of the real binary (fresh process => fresh hash seeds)
     det = []
     for _ in range(ctx.n(12, 200)):
@@ -91,6 +117,17 @@ def run(ctx, rep):
 
 def replay(ctx, rep, obj):
     c = obj["case"]
+    if c.get("kind") == "binary-concat":
+        lines = c["input"].split("\n")
+        enc = lambda ls: ("\n".join(ls) + "\n").encode("utf-8", "surrogateescape")
+        whole = ctx.run_delta(c["args"], enc(lines))[1]
+        k, parts = 0, b""
+        for n in c["sections"]:
+            parts += ctx.run_delta(c["args"], enc(lines[k:k + n]))[1]; k += n
+        print("equal" if whole == parts else "DIFFERENT")
+        if whole != parts:
+            rep.violation(obj.get("signature", "concat-binary"), "delta(A++B) differs from delta(A)++delta(B)", c)
+        return
     cfg = M.VCfg(**c["model_cfg"])
     lines = c["input"].split("\n")
     cases = [(cfg, [l.encode() for l in lines])]
